@@ -782,3 +782,70 @@ pub fn config_probes(scratch: &std::path::Path, seed: u64) -> (Option<Violation>
     let _ = std::fs::remove_dir_all(scratch);
     (None, c)
 }
+
+/// Shrinks a failing crash run: drops steps while some exit position k still reproduces the class.
+pub fn shrink_crash(trace: &Trace, k: u64, class: &str, scratch: &std::path::Path, budget: usize) -> (Trace, u64, usize) {
+    let mut best = trace.clone();
+    let mut bk = k;
+    let mut used = 0usize;
+    let fails = |t: &Trace, used: &mut usize| -> Option<u64> {
+        for kk in 1..=120u64 {
+            *used += 1;
+            let r = run_crash(t, kk, scratch);
+            if matches!(&r.violation, Some(v) if v.class() == class) {
+                return Some(kk);
+            }
+            if !r.exited_at_k {
+                return None;
+            }
+        }
+        None
+    };
+    let mut i = 0;
+    while i < best.steps.len() && used < budget {
+        let mut t = best.clone();
+        t.steps.remove(i);
+        if t.steps.is_empty() {
+            break;
+        }
+        match fails(&t, &mut used) {
+            Some(kk) => {
+                best = t;
+                bk = kk;
+            }
+            None => i += 1,
+        }
+    }
+    (best, bk, used)
+}
+
+/// Shrinks a failing L2 run (best effort: the instant at which sled's writer meets the failpoint is not controlled,
+/// so every candidate is tried twice).
+pub fn shrink_l2(trace: &Trace, bits: u64, after: usize, class: &str, scratch: &std::path::Path, budget: usize) -> (Trace, usize, usize) {
+    let mut best = trace.clone();
+    let mut ba = after;
+    let mut used = 0usize;
+    let fails = |t: &Trace, a: usize, used: &mut usize| -> bool {
+        for _ in 0..2 {
+            *used += 1;
+            let r = run_l2(t, bits, a, scratch);
+            if matches!(&r.violation, Some(v) if v.class() == class) {
+                return true;
+            }
+        }
+        false
+    };
+    let mut i = 0;
+    while i < best.steps.len() && used < budget {
+        let mut t = best.clone();
+        t.steps.remove(i);
+        let a = if i < ba { ba - 1 } else { ba };
+        if !t.steps.is_empty() && fails(&t, a, &mut used) {
+            best = t;
+            ba = a;
+        } else {
+            i += 1;
+        }
+    }
+    (best, ba, used)
+}
